@@ -33,6 +33,9 @@ type Msg struct {
 	// ForceTopic overrides the consistent topic choice: "-" = leave the message
 	// topic empty, any other non-empty value = set it (used to build invalid mixes).
 	ForceTopic string `json:"force_topic,omitempty"`
+	// TimeOffMs != 0: the message carries an explicit Time, this many ms from 2021-01-01 (applications stamp event
+	// times; they need not be monotonic in submission order)
+	TimeOffMs int `json:"time_off_ms,omitempty"`
 }
 
 // Call is one WriteMessages call.
@@ -139,6 +142,9 @@ func Build(id ID, m Msg) kafka.Message {
 		v = append(v, byte('a'+(len(v)*7+id.Index)%26))
 	}
 	msg := kafka.Message{Topic: m.Topic, Value: v}
+	if m.TimeOffMs != 0 {
+		msg.Time = time.Date(2021, 1, 1, 0, 0, 0, 0, time.UTC).Add(time.Duration(m.TimeOffMs) * time.Millisecond)
+	}
 	if m.ForceTopic == "-" {
 		msg.Topic = ""
 	} else if m.ForceTopic != "" {
